@@ -117,7 +117,11 @@ func VerifNewServer(m *Manager, sessionTimeoutSec int, authPlugin, serverVersion
 	s.closed = sync2.NewAtomicBool(false)
 	s.listener = l
 	s.sessionTimeout = time.Duration(sessionTimeoutSec) * time.Second
-	tw, err := util.NewTimeWheel(timeWheelUnit, timeWheelBucketsNum)
+	buckets := timeWheelBucketsNum
+	if VerifWheelBuckets > 0 {
+		buckets = VerifWheelBuckets
+	}
+	tw, err := util.NewTimeWheel(timeWheelUnit, buckets)
 	if err != nil {
 		return nil, err
 	}
@@ -125,6 +129,10 @@ func VerifNewServer(m *Manager, sessionTimeoutSec int, authPlugin, serverVersion
 	s.tw.Start()
 	return s, nil
 }
+
+// VerifWheelBuckets, when positive, replaces the 3600 buckets of the session idle wheel: worlds without client
+// sessions (the control-plane world starts several proxies per run) do not pay for building the full wheel.
+var VerifWheelBuckets int
 
 // VerifNewAdminHandler builds the admin API of a proxy the way NewAdminServer does (same routes, same
 // handlers, same basic auth) without a listener and without registering the proxy in the coordinator; the
